@@ -258,8 +258,10 @@ func genC19(g *Gen, tier string, w *bufio.Writer) {
 	} else {
 		fam(inner, timed, "a41", 3)
 		fam(full, timed, "abr413", 2)
-		fam(inner, untimed, "aAn", 3)
-		fam(full, untimed, "aAn", 3)
+		fam(inner, untimed, "aA", 3)
+		fam(inner, untimed, "aAnNb", 2)
+		fam(full, untimed, "aA", 3)
+		fam(full, untimed, "aAnNb", 2)
 		fam(left, untimed, "aAnNb", 2)
 		fam(right, untimed, "aAnNb", 2)
 	}
